@@ -1885,6 +1885,9 @@ func (s *ImmuStore) performPrecommit(tx *Tx, entries []*EntrySpec, ts int64, blT
 			return err
 		}
 		tx.header.BlRoot = blRoot
+	} else {
+		// the tx holder comes from a pool: do not keep the root of its previous use
+		tx.header.BlRoot = [sha256.Size]byte{}
 	}
 
 	if tx.header.ID <= tx.header.BlTxID {
